@@ -97,6 +97,7 @@ class Hub:
         self.queues: Dict[str, bytearray] = {C2S: bytearray(), S2C: bytearray()}
         self.log: Dict[str, bytearray] = {C2S: bytearray(), S2C: bytearray()}      # as written
         self.delivered: Dict[str, bytearray] = {C2S: bytearray(), S2C: bytearray()}  # as delivered
+        self.writes: Dict[str, List[bytes]] = {C2S: [], S2C: []}     # one entry per transport.write()
         self.trans: Dict[str, MemTransport] = {}
         self.auto = True
         self.chunker = chunker          # (direction, available) -> size of next chunk (>=1)
@@ -114,6 +115,7 @@ class Hub:
 
     def written(self, direction: str, data: bytes) -> None:
         self.log[direction] += data
+        self.writes[direction].append(data)
         if self.filter:
             data = self.filter(direction, data)
         if self.cut[direction] or not data:
@@ -177,9 +179,9 @@ class Hub:
         return total
 
     def closed(self, t: MemTransport, abort: bool = False) -> None:
+        # bytes already written are "on the wire" (a selector transport hands them to the kernel at once),
+        # so neither close() nor abort() retracts them; the peer sees them and then the end of the stream
         self.close_pending.append(t)
-        if abort:
-            self.queues[t.out_dir].clear()
         self.loop.call_soon(self._finish_closes)
 
     def _finish_closes(self) -> None:
